@@ -115,6 +115,9 @@ structure Adapters where
   stackLimit : Option Nat := none
   /-- `Adapter.lenientOperandLists` (a *finding*, not a consensus change: see there) -/
   lenientLists : Bool := false
+  /-- `Adapter.coreFragment`: a *domain restriction* used by theorem `C01_main_core` only (never by
+  the streams): the `((X) …)` form and opcode 36 end the comparison (`outOfDomain`) -/
+  coreOnly : Bool := false
 
 /-- the Python, unchanged -/
 def Adapters.none : Adapters := {}
@@ -168,6 +171,7 @@ def evalOp (ad : Adapters) (st : St) : Except RefErr (Nat × St) :=
     | .pair operator operandList =>
       match operator with
       | .pair newOperator mustBeNil =>
+        if ad.coreOnly then .error .outOfDomain else
         -- `if new_operator.pair or must_be_nil.atom != b"": raise "in ((X)...) syntax X must be lone atom"`
         let bad := listp newOperator ||
           (if ad.lenientLists then (match mustBeNil with | .pair _ _ => true | .atom _ => false)
@@ -275,6 +279,7 @@ def applyOp (ad : Adapters) (st : St) (currentCost : Nat) (remaining : Option Na
             | .error e => .error e
             | .ok st => .ok (APPLY_COST, { st with opStack := .eval :: st.opStack })
           | _ => .error .internal
+      else if ad.coreOnly && op.map UInt8.toNat == [0x24] then .error .outOfDomain
       else
         match ad.softfork, op.map UInt8.toNat == [0x24] with
         | some cfg, true => softforkApply ad cfg st operandList currentCost remaining
@@ -461,6 +466,13 @@ def costCheckOrder (atBudget unbudgeted : Except String (Nat × Tree)) : Except 
     match unbudgeted with
     | .ok _ => if k == "cost" then .error "cost" else .error (k ++ "/ok")
     | .error k' => if k == k' || k == "cost" then .error k' else .error (k ++ "/" ++ k')
+
+/-- **`Adapter.coreFragment`** — not an adapter but a restriction of the *domain* of the machine-level
+theorem `C01_main_core`: a run that evaluates a `((X) …)` form or applies opcode 36 leaves the
+fragment (`RefErr.outOfDomain`).  Inside the fragment every operand list an operator sees has been
+evaluated (so it ends in nil and the strict and the lenient reading coincide) and no softfork guard
+is ever entered. -/
+def coreFragment (ad : Adapters) : Adapters := { ad with coreOnly := true }
 
 /-- all consensus adapters (`lenient` additionally switches the finding on) -/
 def consensus (assigned : List Bytes) (assignedInGuard : Nat → List Bytes) (guardCost : Nat)
